@@ -4562,7 +4562,11 @@ impl<'a> Assignment<'a> {
     }
 
     pub(crate) fn parse(mut querystring: &'a str) -> Result<(Self, &'a str), StamError> {
-        let assignment = match querystring.split(QUERYSPLITCHARS).next() {
+        let assignment = match querystring
+            .split(QUERYSPLITCHARS)
+            .next()
+            .map(|keyword| keyword.trim_end_matches(';')) //(COMPOSITE; MULTI; DIRECTIONAL; have no arguments)
+        {
             Some("ID") => {
                 querystring = querystring["ID".len()..].trim_start();
                 let (arg, remainder, _) = get_arg(querystring)?;
